@@ -17,7 +17,8 @@ MODULE = "DfolsVerif.Properties.C01"
 BUILD_TARGETS = ["DfolsVerif.Driver.ClipDrv"]
 THEOREMS = ["Dfols.C01.C01_asAbs_in_bounds", "Dfols.C01.C01_removeScaling_in_bounds", "Dfols.C01.C01_eval_in_bounds",
             "Dfols.C01.C01_x0_clamp", "Dfols.C01.C01_no_new_nan", "Dfols.C01.callsites_ok",
-            "Dfols.C01.C01_old_overshoots", "Dfols.C01.C01_new_exact", "Dfols.C01.gen_clip_fns", "Dfols.C01.C01_gen_eval_in_bounds", "Dfols.C01.gen_scaling_setup"]
+            "Dfols.C01.C01_old_overshoots", "Dfols.C01.C01_new_exact", "Dfols.C01.gen_clip_fns", "Dfols.C01.C01_gen_eval_in_bounds", "Dfols.C01.gen_scaling_setup",
+            "Dfols.C01.C01_scaling_roundtrip"]
 TRUSTED_EXTRA = [
     "AST-to-Lean translator harness/gen_kernels.py (translate_clip): elementwise np.minimum/np.maximum/+/* expressions and the masked x0 assignments as ClipOps terms; the projection branch (dykstra) is C09's",
     "non-NaN doubles <-> Int order keys is an order embedding; + and x are arbitrary functions in the theorems (any rounding)",
@@ -31,6 +32,8 @@ def pre_build(ctx):
     gen_callsites.regenerate(ctx)
     import gen_kernels
     ctx.cov["translated_clip_functions"] = gen_kernels.regenerate_clip(ctx)
+    import gen_scaling
+    gen_scaling.regenerate(ctx)
 
 
 def canon(bits_str):
